@@ -286,6 +286,8 @@ OpGetTaggedByIn(c, t)  == [op |-> "GetTaggedByInContext", id |-> t, ctx |-> c]
 OpGetParam(p)          == [op |-> "GetParam", id |-> p, ctx |-> 0]
 OpOverrideParam(p, kind, v)  == [op |-> "OverrideParam", id |-> p, ctx |-> 0, kind |-> kind, v |-> v]
 OpOverrideService(s, ctor, args) == [op |-> "OverrideService", id |-> s, ctx |-> 0, ctor |-> ctor, args |-> args]
+OpIsTaggedBy(s, t)     == [op |-> "IsTaggedBy", id |-> s, ctx |-> 0, tag |-> t]
+OpCircularDeps         == [op |-> "CircularDeps", id |-> "", ctx |-> 0]
 
 (* generated getters: G() is Get(name of the service declaring getter G) converted to its type *)
 GetterOwner(cfg, g) == CHOOSE s \in SvcNames(cfg) : ~IsTodo(cfg.services[s]) /\ cfg.services[s].getter = g
@@ -302,6 +304,10 @@ Apply(st, o) ==
     [] o.op = "GetTaggedBy"  -> DropBag(GetTaggedFrom(FreshBag(st), TaggedOrder(st.cfg, o.id), 1, <<>>))
     [] o.op = "GetTaggedByInContext" -> StoreCtx(GetTaggedFrom(InCtx(st, o.ctx), TaggedOrder(st.cfg, o.id), 1, <<>>), o.ctx)
     [] o.op = "GetParam"     -> GetParamV(st, o.id)
+    \* pure queries: the tag table of the (possibly overridden) configuration; an accepted configuration has no cycle (C07),
+    \* so the runtime's own cycle detector has nothing to report
+    [] o.op = "IsTaggedBy"   -> Ok(VLit("bool", IF o.id \in SvcNames(st.cfg) /\ o.tag \in SvcTags(st.cfg.services[o.id]) THEN "true" ELSE "false"), st)
+    [] o.op = "CircularDeps" -> Ok(VNil, st)
     [] o.op = "OverrideParam" ->
          Ok(VNil, [st EXCEPT !.cfg.params = Upd(@, o.id, IF o.kind = "string" THEN AStr(o.v) ELSE ALit(o.kind, o.v)),
                              !.pcache = Del(@, o.id)])
